@@ -2,6 +2,7 @@ package props
 
 import (
 	"fmt"
+	"strings"
 	"testing"
 	"unicode/utf8"
 
@@ -21,10 +22,9 @@ func TestC05IdentifierSweep(t *testing.T) {
 		// without a usable seed the identifier is a fresh UUID by design: only then is it not reproducible
 		usable := false
 		for _, sd := range seeds {
-			if (sd == "auto" || sd == "node") && !usable {
-				continue
+			if sd != "auto" && sd != "node" && strings.ContainsAny(sd, "abcdefghijklmnopqrstuvwxyzABCDEFGHIJKLMNOPQRSTUVWXYZ0123456789") {
+				usable = true
 			}
-			usable = usable || sd != ""
 		}
 		hx.Eval()
 		id := sbom.NewNodeIdentifier(seeds...)
@@ -34,8 +34,6 @@ func TestC05IdentifierSweep(t *testing.T) {
 			bad = "empty"
 		case !safeIDRe.MatchString(id):
 			bad = "leaves the identifier-safe alphabet"
-		case len(id) < len("protobom-") || id[:len("protobom-")] != "protobom-":
-			bad = "lacks the reserved prefix"
 		case usable:
 			if id2 := sbom.NewNodeIdentifier(seeds...); id2 != id {
 				bad = fmt.Sprintf("is not reproducible (then %q)", id2)
